@@ -272,30 +272,30 @@ CHECKS["C44"] = dict(
 CHECKS["C04"] = dict(
     src="C04.cpp", level="model_checking",
     entries=[
-        dict(name="harness_c04_add_mul", quick={"B": 2}, thorough={"B": 4, "_wall": 1700}),
+        dict(name="harness_c04_add_mul", quick={"B": 1, "kinds": 10}, thorough={"B": 3, "kinds": 11, "_wall": 2400}),
         dict(name="harness_c04_maxmin_logic", quick={"B": 2}, thorough={"B": 5}),
     ],
     anchors=["SymEngine::Add::dict_add_term", "SymEngine::Add::from_dict", "SymEngine::Mul::dict_add_term_new", "SymEngine::Mul::from_dict", "SymEngine::add(", "SymEngine::mul("],
-    bounds="all triples (a,b,c) from 11 operand shapes (integer, rational, symbol, c*x, x**c, x**(c/2), c*y**2, sin x, Gaussian number, x*y, 2**(c/3)) over two shared symbolic integer slots |c|<=2 (4): all 6 orders x 2 bracketings of + and *, the n-ary add/mul, equal hashes; max/min/And/Or over mixed numeric and symbolic arguments",
+    bounds="all triples (a,b,c) from 10 (thorough 11) operand shapes (integer, rational, symbol, c*x, x**c, x**(c/2), c*y**2, sin x, Gaussian number, x*y; thorough also 2**(c/3)) over two shared symbolic integer slots |c|<=1 (3): all 6 orders x 2 bracketings of + and *, the n-ary add/mul; max/min/And/Or over mixed numeric and symbolic arguments",
     outside=["more than three operands", "floating point operands (order-dependence of float addition is not a canonical-form question)"],
 )
 
 CHECKS["C39"] = dict(
     src="C39.cpp", level="model_checking",
     entries=[
-        dict(name="harness_c39_symbols", quick={"depth": 1, "symB": 2}, thorough={"depth": 2, "symB": 2, "_wall": 1700}),
+        dict(name="harness_c39_symbols", quick={"depth": 1, "symB": 1}, thorough={"depth": 2, "symB": 2, "_wall": 2400}),
         dict(name="harness_c39_coeff", quick={"B": 2}, thorough={"B": 6}),
     ],
     anchors=["SymEngine::free_symbols", "SymEngine::has_symbol", "SymEngine::function_symbols", "SymEngine::coeff"],
-    bounds="operator trees of depth <= 1 (2) over {x, y, p, 2, -1/2, 0, 1, a symbolic integer |c|<=2} (slots that become 0 or 1 and cancelling terms make symbols disappear): free_symbols/has_symbol against an independent walk of the result tree, f(e), function_symbols; coeff(p,x,n) for p = a x^2 + b y x + c + y with symbolic a,b,c reconstructs p",
+    bounds="operator trees of depth <= 1 (2) over {x, y, p, 2, -1/2, 0, 1, a symbolic integer |c|<=1 (2)} (slots that become 0 or 1 and cancelling terms make symbols disappear): free_symbols/has_symbol against an independent walk of the result tree, f(e), function_symbols; coeff(p,x,n) for p = a x^2 + b y x + c + y with symbolic a,b,c reconstructs p",
     outside=["Derivative/Subs/sets/Piecewise binding rules", "atoms()"],
 )
 
 CHECKS["C37"] = dict(
     src="C37.cpp", level="model_checking",
-    entries=[dict(name="harness_c37_cse", quick={"depth": 1}, thorough={"depth": 2, "_wall": 1700})],
+    entries=[dict(name="harness_c37_cse", quick={"depth": 1, "symnum": 0}, thorough={"depth": 2, "symnum": 1, "_wall": 2400})],
     anchors=["SymEngine::cse", "SymEngine::tree_cse", "SymEngine::opt_cse"],
-    bounds="four outputs sin(s)+s*u, (s+u)*cos(s), (s+u+x)^2, s+u+y sharing a subtree s (operator tree of depth <= 1 (2)), a sub-sum s+u and products, u of depth <= 1, with symbolic integer slots: fresh replacement symbols, ordering of replacements, back-substitution reproduces every input",
+    bounds="four outputs sin(s)+s*u, (s+u)*cos(s), (s+u+x)^2, s+u+y sharing a subtree s (operator tree of depth <= 1 (2)), a sub-sum s+u and products, u of depth <= 1 (thorough tier: with symbolic integer leaves): fresh replacement symbols, ordering of replacements, back-substitution reproduces every input",
     outside=["more than four outputs", "matrices"],
 )
 
@@ -340,9 +340,9 @@ CHECKS["C28"] = dict(
 
 CHECKS["C38"] = dict(
     src="C38.cpp", level="model_checking",
-    entries=[dict(name="harness_c38", quick={"npoints": 3, "maxd": 2, "X": 20, "B": 2}, thorough={"npoints": 4, "maxd": 3, "X": 100000, "B": 9, "halves": 1, "_wall": 1700})],
+    entries=[dict(name="harness_c38", quick={"npoints": 3, "maxd": 2, "X": 5, "B": 1}, thorough={"npoints": 4, "maxd": 3, "X": 100000, "B": 9, "halves": 1, "_wall": 1700})],
     anchors=["SymEngine::generate_fdiff_weights_vector"],
-    bounds="grids of 3 (4) distinct points from {-2..2} (thorough: also the half-integer grids), every grid enumerated; centre x0 a symbolic integer |x0|<=20 (1e5) and test polynomial of degree < grid size with symbolic integer coefficients |a|<=2 (9): sum_j w_kj p(g_j) == p^(k)(x0) exactly for k <= 2 (3)",
+    bounds="grids of 3 (4) distinct points from {-2..2} (thorough: also the half-integer grids), every grid enumerated; centre x0 a symbolic integer |x0|<=5 (1e5) and test polynomial of degree < grid size with symbolic integer coefficients |a|<=1 (9): sum_j w_kj p(g_j) == p^(k)(x0) exactly for k <= 2 (3)",
     outside=["symbolic (Symbol) grid points", "rational centres", "grids of more than 4 points"],
 )
 
@@ -359,9 +359,9 @@ CHECKS["C30"] = dict(
 
 CHECKS["C31"] = dict(
     src="C31.cpp", level="model_checking",
-    entries=[dict(name="harness_c31", quick={"order": 5, "B": 2}, thorough={"order": 7, "B": 5, "_wall": 1700})],
+    entries=[dict(name="harness_c31", quick={"order": 4, "B": 1}, thorough={"order": 7, "B": 5, "_wall": 1700})],
     anchors=["SymEngine::series(", "SymEngine::UnivariateSeries", "SymEngine::SeriesBase"],
-    bounds="f(c1 x + c2 x^2) for f in {exp, log(1+.), sin/cos, tan, atan, sinh/cosh, 1/(1+.), sqrt(1+.), (1+.)^3 exp} with c1 a symbolic integer |c1|<=2 (5) and c2 from {0,1,-2,3}, order 5 (7): the returned coefficients satisfy the defining differential/functional equation of each function as exact coefficient identities (exact rational arithmetic)",
+    bounds="f(c1 x + c2 x^2) for f in {exp, log(1+.), sin/cos, tan, atan, sinh/cosh, 1/(1+.), sqrt(1+.), (1+.)^3 exp} with c1 a symbolic integer |c1|<=1 (5) and c2 from {0,1,-2,3}, order 4 (7): the returned coefficients satisfy the defining differential/functional equation of each function as exact coefficient identities (exact rational arithmetic)",
     outside=["asin, lambertw, series reversion", "rational inner coefficients", "orders above 7"],
 )
 
@@ -439,4 +439,16 @@ CHECKS["C26"] = dict(
     anchors=["SymEngine::matrix_add", "SymEngine::matrix_mul", "SymEngine::hadamard_product", "SymEngine::transpose", "SymEngine::trace", "SymEngine::is_zero(SymEngine::MatrixExpr", "SymEngine::is_symmetric", "SymEngine::is_toeplitz", "SymEngine::size("],
     bounds="leaves: dense r x c (r, c in {1,2}) with symbolic integer entries |e|<=2 (3), diagonal and identity of size 1..2, zero r x c; one operation from {matrix_add, matrix_mul, hadamard_product, transpose, conjugate_matrix, trace} incl. all dimension mismatches; trees (A op1 B) op2 C and C op2 (A op1 B) over 2x2 leaves |e|<=1 (quick: A dense/diagonal/identity/zero, B and C diagonal/identity/zero; thorough: all three may be dense), n-ary forms; every entry of the result against exact integer arithmetic in the harness; size(); definite answers of is_zero, is_square, is_real, is_toeplitz, is_diagonal, is_symmetric, is_lower, is_upper against the dense matrix",
     outside=["matrix symbols and symbolic dimensions (no concrete value to compare with)", "matrices larger than 2x2", "complex entries"],
+)
+
+CHECKS["C15"] = dict(
+    src="C15.cpp", level="model_checking",
+    entries=[
+        dict(name="harness_c15_recipes", quick={"depth": 1}, thorough={"depth": 2, "_wall": 2400}),
+        dict(name="harness_c15_logic", quick={}, thorough={}),
+    ],
+    anchors=["SymEngine::ccode", "SymEngine::c89code", "SymEngine::c99code", "SymEngine::CodePrinter::bvisit", "SymEngine::C89CodePrinter::_print_pow", "SymEngine::C99CodePrinter::_print_pow"],
+    bounds="operator trees of depth <= 1 (thorough 2) over {x, y, positive p, 2, -1/2, 3, 2/3} with + - * /, integer powers {2,3,-1,-2}, rational powers {1/2,1/3,3/2,-1/2,2/3} of p, sqrt, sin, cos, tan, exp, log, sinh, cosh, tanh, atan, erf; 10 shapes with max/min, sign, abs, Piecewise (2 and 3 branches with relationals), pi, E, quotients; printers ccode, c89code, c99code at double precision; the emitted text is interpreted with C's precedence rules and integer/floating literal typing (so 1/3 would be 0) and evaluated for ALL real x, y and positive p",
+    outside=["rounding error of double arithmetic and of libm (formula level, oracle D6)", "float / long double precision settings, CUDA / Metal / JavaScript printers", "the C compiler itself"],
+    assumptions=["the interpreter of the C expression fragment in harness/C15.cpp implements C's grammar and usual arithmetic conversions for the constructs the printer emits", "oracle D2 (vlib/vrecipe.h)"],
 )
